@@ -662,10 +662,17 @@ func splitCounterName(name string) (graphName, bucketName) {
 // TODO(hyangah): replace with go/version.Lang (available from go1.22)
 // after our builders stop running go1.21.
 func goMajorMinor(v string) string {
+	if !strings.HasPrefix(v, "go") {
+		return ""
+	}
 	v = v[2:]
 	maj, x, ok := cutInt(v)
 	if !ok {
 		return ""
+	}
+	if !strings.HasPrefix(x, ".") {
+		// A version without a minor part, such as go1 (the tag of Go 1.0).
+		return "go" + maj
 	}
 	x = x[1:]
 	min, _, ok := cutInt(x)
